@@ -201,6 +201,21 @@ def classify_text(text):
             if isinstance(r, ast.BinOp) and isinstance(r.op, ast.Mult) and (seqish(r.left) or seqish(r.right)) \
                     and any(isinstance(x, ast.Name) for x in ast.walk(r)):
                 return "in_test_runtime_factor_ignored"
+    # a conditional expression / and / or whose alternatives are an int-valued and a float-valued constant expression
+    # is typed C double (255 if c else -1e400 gives 255.0): the spanning-type defect registered under C40
+    # (c_typed_condexpr_boolop), seen here through constant operands
+    def num_kind(n):
+        try:
+            v = eval(compile(ast.Expression(body=n), "<k>", "eval"), {"__builtins__": {}}, {})
+        except Exception:
+            return None
+        return type(v).__name__ if type(v) in (int, float, bool) else None
+    for n in ast.walk(tree):
+        ops = n.values if isinstance(n, ast.BoolOp) else [n.body, n.orelse] if isinstance(n, ast.IfExp) else None
+        if ops:
+            kinds = {num_kind(o) for o in ops}
+            if "float" in kinds and ("int" in kinds or "bool" in kinds):
+                return "int_float_choice_typed_double"
     for n in ast.walk(tree):
         if isinstance(n, (ast.Compare, ast.BoolOp, ast.IfExp)) or (isinstance(n, ast.UnaryOp) and isinstance(n.op, ast.Not)):
             if has_mul(n):
